@@ -4,6 +4,7 @@ import (
 	"fmt"
 	"os"
 	"strings"
+	"sync"
 	"testing"
 	"time"
 
@@ -24,6 +25,10 @@ func TestC18(t *testing.T) {
 		}
 		time.Sleep(100 * time.Millisecond)
 		o.GoBefore, o.TotalBefore, _ = pluginGoroutines()
+		tmpBefore := map[string]bool{}
+		for _, f := range topLevelPluginSockets(os.TempDir()) {
+			tmpBefore[f] = true
+		}
 		cfg := baseClientConfig()
 		cfg.GRPCBrokerMultiplex = mux
 		cfg.AutoMTLS = p.TLS == "auto"
@@ -111,7 +116,33 @@ func TestC18(t *testing.T) {
 			}
 		}
 		_ = handles // servers started with AcceptAndServe are go-plugin's to stop when the broker closes
+		// optionally, host goroutines keep announcing brokered listeners while Kill runs
+		stopStorm := make(chan struct{})
+		var stormWG sync.WaitGroup
+		if g, isGRPC := cli.(*vp.GRPCCli); isGRPC && p.KillRacesAccepts && !mux {
+			for i := 0; i < 8; i++ {
+				stormWG.Add(1)
+				go func() {
+					defer stormWG.Done()
+					for {
+						select {
+						case <-stopStorm:
+							return
+						default:
+						}
+						ln, err := g.Broker.Accept(g.Broker.NextId())
+						if err != nil {
+							return // the broker has been closed: a well-behaved user stops here
+						}
+						ln.Close()
+					}
+				}()
+			}
+			time.Sleep(time.Duration(5+c.ID%40) * time.Millisecond)
+		}
 		ok, _, _ := within(30*time.Second, l.Client.Kill)
+		close(stopStorm)
+		stormWG.Wait()
 		o.KillReturned = ok
 		if p.KeepConns {
 			for _, cc := range conns {
@@ -127,6 +158,11 @@ func TestC18(t *testing.T) {
 			}
 		}
 		o.HostDirLeft = listDir(l.HostDir)
+		for _, f := range topLevelPluginSockets(os.TempDir()) {
+			if !tmpBefore[f] {
+				o.HostTmpLeft = append(o.HostTmpLeft, f)
+			}
+		}
 		// goroutines: poll until back to the level before the case, up to 10 s
 		t0 := time.Now()
 		for {
@@ -143,4 +179,17 @@ func TestC18(t *testing.T) {
 		}
 		done()
 	})
+}
+
+// topLevelPluginSockets lists plugin* socket files directly inside dir (where
+// host-side brokered listeners of Cmd-launched clients are created).
+func topLevelPluginSockets(dir string) []string {
+	ents, _ := os.ReadDir(dir)
+	var out []string
+	for _, e := range ents {
+		if strings.HasPrefix(e.Name(), "plugin") && e.Type()&os.ModeSocket != 0 {
+			out = append(out, e.Name())
+		}
+	}
+	return out
 }
